@@ -22,14 +22,33 @@ theorem C07_bucket_independent (kt : KeyType) (n m : Nat) (hn : 0 < n) (hm : 0 <
 /-- `u64::next_power_of_two` as modelled is a positive power of two not below its argument -/
 theorem nextPowerOfTwo_spec (x : Nat) :
     0 < Gen.nextPowerOfTwo x ∧ x ≤ Gen.nextPowerOfTwo x ∧ ∃ k, Gen.nextPowerOfTwo x = 2 ^ k := by
-  sorry
+  unfold Gen.nextPowerOfTwo
+  split
+  · exact ⟨by omega, by omega, 0, rfl⟩
+  · have := @Nat.lt_log2_self (x - 1)
+    exact ⟨Nat.pow_pos (by omega), by omega, _, rfl⟩
 
 /-- every accepted bucket parameter yields a positive power-of-two table size — a single bucket
 upward —, and the only refused one is `Capacity(0)` (the documented, tested panic) -/
 theorem C07_bucketsOf (p : Gen.HashBucketsParam) :
     (p = .capacity 0 ∧ Gen.bucketsOf p = none) ∨
     (∃ n, Gen.bucketsOf p = some n ∧ 0 < n ∧ ∃ k, n = 2 ^ k) := by
-  sorry
+  cases p with
+  | bucketsSize x =>
+    right
+    obtain ⟨h1, _, h3⟩ := nextPowerOfTwo_spec x
+    exact ⟨_, rfl, h1, h3⟩
+  | capacity x =>
+    by_cases h0 : x = 0
+    · left; subst h0; exact ⟨rfl, rfl⟩
+    · right
+      by_cases h8 : x < 8
+      · exact ⟨8, by simp [Gen.bucketsOf, Gen.capacityToBucketsSize, h0, h8], by omega, 3, rfl⟩
+      · obtain ⟨h1, _, h3⟩ := nextPowerOfTwo_spec (x + x / 8)
+        exact ⟨_, by simp [Gen.bucketsOf, Gen.capacityToBucketsSize, h0, h8], h1, h3⟩
+  | default =>
+    right
+    exact ⟨_, rfl, by decide, 24, by decide⟩
 
 /-- the created table file has room for the header, `n` entries and the bitmap -/
 theorem C07_htxInitLen (n : Nat) : Gen.htxInitLen n = Gen.htxHeaderSz + 8 * n + n / 8 := by
